@@ -46,7 +46,7 @@ func cmpInner(a, b any, recurse func(a, b any) Ordering) Ordering {
 	case int, *big.Int, *big.Rat, float64:
 		switch b.(type) {
 		case int, *big.Int, *big.Rat, float64:
-			a, b := UnifyNums2(a, b, 0)
+			a, b := UnifyNums2ForCmp(a, b)
 			switch a := a.(type) {
 			case int:
 				return compareBuiltin(a, b.(int))
